@@ -97,54 +97,81 @@ func (r fakeRegistry) GetPlugins() []pluginregistry.ModelPlugin { return []plugi
 func (fakeRegistry) NewClientFn(func(endpoint string) (adminapi.ModelPluginServiceClient, error)) {}
 
 type env struct {
-	mu     sync.Mutex
-	server *gnmiv2.Server
-	txs    transaction.Store
-	plugin *fakePlugin
-	n      int
+	server  *gnmiv2.Server
+	txs     transaction.Store
+	plugin  *fakePlugin
+	n       int
+	stopAll func()
 }
 
 var (
-	envOnce sync.Once
-	theEnv  *env
-	envErr  error
+	envMu  sync.Mutex
+	theEnv *env
 )
 
-func getEnv() (*env, error) {
-	envOnce.Do(func() {
-		cluster := test.NewClient()
-		cfgs, err := configuration.NewAtomixStore(cluster)
-		if err != nil {
-			envErr = err
-			return
+// envLife: Sets served by one set of stores and controllers before it is replaced (the stores
+// keep every transaction and proposal, so a long-lived environment slows down).
+const envLife = 400
+
+type startStopper interface {
+	Start() error
+	Stop()
+}
+
+func newEnv() (*env, error) {
+	cluster := test.NewClient()
+	cfgs, err := configuration.NewAtomixStore(cluster)
+	if err != nil {
+		return nil, err
+	}
+	props, err := proposal.NewAtomixStore(cluster)
+	if err != nil {
+		return nil, err
+	}
+	txs, err := transaction.NewAtomixStore(cluster)
+	if err != nil {
+		return nil, err
+	}
+	plugin := &fakePlugin{rw: pathutils.ReadWritePathMap{}}
+	reg := fakeRegistry{p: plugin}
+	topo := fakeTopo{}
+	conns := sb.NewConnManager()
+	ctrls := []startStopper{
+		configurationcontroller.NewController(topo, conns, cfgs),
+		proposalcontroller.NewController(topo, conns, props, cfgs, reg),
+		transactioncontroller.NewController(txs, props),
+	}
+	for _, c := range ctrls {
+		if err := c.Start(); err != nil {
+			return nil, err
 		}
-		props, err := proposal.NewAtomixStore(cluster)
-		if err != nil {
-			envErr = err
-			return
-		}
-		txs, err := transaction.NewAtomixStore(cluster)
-		if err != nil {
-			envErr = err
-			return
-		}
-		plugin := &fakePlugin{rw: pathutils.ReadWritePathMap{}}
-		reg := fakeRegistry{p: plugin}
-		topo := fakeTopo{}
-		conns := sb.NewConnManager()
-		for _, c := range []interface{ Start() error }{
-			configurationcontroller.NewController(topo, conns, cfgs),
-			proposalcontroller.NewController(topo, conns, props, cfgs, reg),
-			transactioncontroller.NewController(txs, props),
-		} {
-			if err := c.Start(); err != nil {
-				envErr = err
-				return
+	}
+	return &env{server: gnmiv2.NewServerForVerif(topo, txs, props, cfgs, reg, conns, 0), txs: txs, plugin: plugin,
+		stopAll: func() {
+			for _, c := range ctrls {
+				c.Stop()
 			}
+			_ = txs.Close(context.Background())
+			_ = props.Close(context.Background())
+			_ = cfgs.Close(context.Background())
+			cluster.Close()
+		}}, nil
+}
+
+// getEnv returns the current environment; the caller holds envMu.
+func getEnv() (*env, error) {
+	if theEnv != nil && theEnv.n >= envLife {
+		theEnv.stopAll()
+		theEnv = nil
+	}
+	if theEnv == nil {
+		e, err := newEnv()
+		if err != nil {
+			return nil, err
 		}
-		theEnv = &env{server: gnmiv2.NewServerForVerif(topo, txs, props, cfgs, reg, conns, 0), txs: txs, plugin: plugin}
-	})
-	return theEnv, envErr
+		theEnv = e
+	}
+	return theEnv, nil
 }
 
 func leafPath(target string) *pb.Path {
@@ -154,12 +181,12 @@ func leafPath(target string) *pb.Path {
 // e2e runs one Set of /x = g on a fresh target whose model gives /x the type options o, and
 // reports what is stored, what the plugin validated, and what Get returns.
 func e2e(g gval, o mopts) (out string) {
+	envMu.Lock()
+	defer envMu.Unlock()
 	e, err := getEnv()
 	if err != nil {
 		return "err env:" + strings.ReplaceAll(err.Error(), " ", "_")
 	}
-	e.mu.Lock()
-	defer e.mu.Unlock()
 	defer func() {
 		if r := recover(); r != nil {
 			out = "panic"
